@@ -1,6 +1,6 @@
 (* Properties/C05.v — write gating.  Statements only. *)
 From Verif Require Import Lib.Bytes Model.Path Model.Fs Model.Session Gen.Consts Spec.ProtoSpec
-  Proofs.SessionProofs Proofs.Examples.
+  Proofs.SessionProofs Proofs.Examples Proofs.UploadProofs.
 
 (* unless writing was enabled, no byte stream changes anything: the world after any connection,
    for any input, is the world before it *)
@@ -18,9 +18,41 @@ Proof. exact step_refuses. Qed.
 Theorem C05_reads_pure : forall c w k rq, mutating rq = false -> o_world (step c w k rq) = w.
 Proof. exact step_nonmutating. Qed.
 
+(* with writing enabled: create leaves the connection uploading into an empty file (new, or an existing one
+   truncated), or refuses and changes nothing *)
+Theorem C05_create : forall c w k p, allow_write c = true ->
+  let o := step c w k (RCreateFile p) in
+  o_close o = false /\
+  (forall h, wo (o_conn o) = Some h -> exists i, uploading (o_world o) (o_conn o) i []) /\
+  (o_out o = enc_result32 false -> o_world o = w).
+Proof. exact create_starts_upload. Qed.
+
+(* ... and any number of writes of any sizes (empty ones and several transfer buffers included) store exactly the
+   uploaded bytes: each is acknowledged with its length, the file holds the concatenation, the directory tree and
+   every other file are untouched *)
+Theorem C05_upload_exact : forall c i, allow_write c = true -> forall ds w k content, uploading w k i content ->
+  exists outs w' k',
+    run c w k (writes ds) = (outs, false, w', close_conn k') /\
+    map fst outs = map (fun d => be32 (wrap32 (zlen d))) ds /\
+    uploading w' k' i (content ++ concat ds) /\
+    tree w' = tree w /\ (forall j, j <> i -> get_inode (inodes w') j = get_inode (inodes w) j).
+Proof. exact upload_exact. Qed.
+
+(* delete / mkdir / rmdir: no file's content changes, the connection state is untouched, and the failure code means
+   that nothing changed at all (what a success changes is the named entry: Model/Fs.fs_remove / fs_mkdir, compared
+   with the real tree after every session by the differential) *)
+Theorem C05_structure_ops : forall c w k rq,
+  (match rq with RDeleteFile _ | RRmdir _ | RMkdir _ => True | _ => False end) ->
+  let o := step c w k rq in
+  inodes (o_world o) = inodes w /\ o_close o = false /\ o_conn o = k /\ (o_out o = enc_result32 false -> o_world o = w).
+Proof. exact structure_ops_frame. Qed.
+
 Print Assumptions C05_readonly.
 Print Assumptions C05_refused.
 Print Assumptions C05_reads_pure.
+Print Assumptions C05_create.
+Print Assumptions C05_upload_exact.
+Print Assumptions C05_structure_ops.
 
 Example C05_ex_refused :
   o_out (step (ex_cfg false) ex_world conn0 (RMkdir [47;110])) = [255;255;255;255].
